@@ -1047,6 +1047,30 @@ impl Recorder {
                 }
             }
         }
+        // data-derived (both tiers, shard 0): every name with MORE THAN EIGHT emoji under every configuration without ANSI output -
+        // the inputs of known finding F16 (the nine-candidate cut of C15 cannot show them all) are exercised in every run
+        if shard == 0 {
+            let mut big: Vec<String> = self.or.bn_emoji_names.iter().filter(|(_, l)| l.len() > 8).map(|(n, _)| n.to_string()).collect();
+            big.sort();
+            for name in big {
+                for ci in 0..cfgs.len() {
+                    if cfgs[ci].ansi {
+                        continue;
+                    }
+                    let seq: Vec<String> = name.chars().map(|c| c.to_string()).collect();
+                    if let Some((o, raw)) = self.type_values(&mut ctxs[ci], &inv, &seq) {
+                        if o.kind == "panic" {
+                            self.emit(json!({"ev": "panic", "typed": chars(&name), "what": o.panic.clone().unwrap_or_default()}));
+                            ctxs[ci] = Ctx::new(&cfgs[ci], &self.home).unwrap();
+                            continue;
+                        }
+                        let e = self.flist_event(&raw, &cfgs[ci], &o, false);
+                        self.emit(e);
+                    }
+                    ctxs[ci].finish();
+                }
+            }
+        }
         // emoticons: typed by their raw key characters
         let mut emo: Vec<String> = self.or.emoticons.keys().map(|s| s.to_string()).collect();
         emo.sort();
